@@ -1327,6 +1327,15 @@ class H2Connection:
         if acknowledged_size < 0:
             raise ValueError("Cannot acknowledge negative data")
 
+        # Look the stream up before any window is touched: an unknown stream
+        # ID raises, and a call that raises must not change a window.
+        try:
+            stream = self._get_stream_by_id(stream_id)
+        except StreamClosedError:
+            # The stream is already gone. We're not worried about incrementing
+            # the window in this case.
+            stream = None
+
         frames = []
 
         conn_manager = self._inbound_flow_control_window_manager
@@ -1336,18 +1345,11 @@ class H2Connection:
             f.window_increment = conn_increment
             frames.append(f)
 
-        try:
-            stream = self._get_stream_by_id(stream_id)
-        except StreamClosedError:
-            # The stream is already gone. We're not worried about incrementing
-            # the window in this case.
-            pass
-        else:
-            # No point incrementing the windows of closed streams.
-            if stream.open:
-                frames.extend(
-                    stream.acknowledge_received_data(acknowledged_size)
-                )
+        # No point incrementing the windows of closed streams.
+        if stream is not None and stream.open:
+            frames.extend(
+                stream.acknowledge_received_data(acknowledged_size)
+            )
 
         self._prepare_for_sending(frames)
 
